@@ -279,6 +279,48 @@ theorem fewer_than_t_undetermined {κ : Type*} [DecidableEq κ] (S : Finset κ) 
     simp at hz
     exact h0 k hk hz
 
+/-- **The guard `h^ε ≠ 0` of `SigPoK.Verify` is load-bearing**: the proof that anybody can make with no signer involved —
+the prover's own routine run on `h = h' = 0` — satisfies both Fiat–Shamir equations and the pairing equation for *every*
+key, message and challenge; it is the guard alone that refuses it (seeded change C09f removed the guard: the harness
+scenario `forged` of `psflow` replays exactly this proof against the real `SigPoK.Verify` / `Verifier.Verify`). -/
+theorem zero_proof_only_guard (pp : PP G1 G2 ι) (pk : PK G2 ι) (m : ι → F) (ρ : PoKRand F ι) (c : F) :
+    (pokOfSig pp pk (0 : G1) (0 : G1) m ρ c).verifyForm pp pk c ∧
+    e (pokOfSig pp pk (0 : G1) (0 : G1) m ρ c).hε (pokOfSig pp pk (0 : G1) (0 : G1) m ρ c).κ
+      + e ((pokOfSig pp pk (0 : G1) (0 : G1) m ρ c).hPrimeε + (pokOfSig pp pk (0 : G1) (0 : G1) m ρ c).ν) (-pp.g2) = 0 ∧
+    ¬ (pokOfSig pp pk (0 : G1) (0 : G1) m ρ c).verify e pp pk c := by
+  refine ⟨⟨?_, ?_⟩, ?_, ?_⟩
+  · simp only [pokOfSig]
+    have : ∑ i, (ρ.γ i + c * m i) • pk.Y i = ∑ i, ρ.γ i • pk.Y i + c • ∑ i, m i • pk.Y i := by
+      rw [Finset.smul_sum, ← Finset.sum_add_distrib]
+      apply Finset.sum_congr rfl
+      intro i _
+      rw [add_smul, mul_smul]
+    rw [this]
+    module
+  · simp [pokOfSig]
+  · simp [pokOfSig]
+  · intro h
+    exact h.2.1 (by simp [pokOfSig])
+
+open Polynomial in
+/-- **A BLS signature aggregated from `t − 1` genuine shares is rejected** under the threshold key `f(0) • g2`, for every
+sharing polynomial of degree exactly `t − 1 = |S|`, every set `S` of non-zero distinct points and every message that does
+not hash to the identity (`Props/C18.t_minus_one_shares_miss` carried through `bls_verify_iff`). For fewer shares, or a
+vanishing leading coefficient, `fewer_than_t_undetermined` / `C18.fewer_than_t_not_determined` are what can be said. -/
+theorem bls_t_minus_one_shares_rejected {κ : Type*} [DecidableEq κ] {g2 : G2} (hnd : NonDegenerate e g2) (S : Finset κ)
+    (v : κ → F) (hv : Set.InjOn v S) (h0 : ∀ k ∈ S, v k ≠ 0) (f : F[X]) (hf : f.degree = ((S.card : ℕ) : WithBot ℕ))
+    (hm : G1) (hne : hm ≠ 0) :
+    ¬ blsVerify e g2 (f.eval 0 • g2) hm (∑ k ∈ S, lam S v k • (f.eval (v k) • hm)) := by
+  rw [bls_verify_iff e hnd, aggregate_in_exponent]
+  intro h
+  have h2 : ((∑ k ∈ S, lam S v k * f.eval (v k)) - f.eval 0) • hm = 0 := by rw [sub_smul, h, sub_self]
+  rcases smul_eq_zero.mp h2 with h1 | h1
+  · apply t_minus_one_shares_miss S v hv h0 f hf
+    rw [← sub_eq_zero.mp h1]
+    apply Finset.sum_congr rfl
+    intro i _; ring
+  · exact hne h1
+
 /-! ## verifying is side-effect free -/
 
 /-- **No verifying function mutates, through a receiver-mutating mathlib method (`Add`, `Sub`, `Clone`, `Affine`, `Mod`,
